@@ -103,7 +103,7 @@ def soloSpec (cfg : Cfg) (u : Tid) : List Act → TS → TS × List Out
     let r := lstepSpec cfg u o ts
     let r2 := soloSpec cfg u as r.1
     (r2.1, r.2 :: r2.2)
-  | .born :: as, ts => soloSpec cfg u as (if ts.phase = .unborn then { ts with phase := .ready } else ts)
+  | .born :: as, ts => soloSpec cfg u as (if ts.phase = .unborn ∨ ts.phase = .done then { ts with phase := .ready } else ts)
 
 theorem solo_eq_spec (cfg : Cfg) (u : Tid) (as : List Act) :
     ∀ (c : Cache) (ts : TS), CacheOK cfg c → solo cfg u as c ts = soloSpec cfg u as ts := by
@@ -151,18 +151,31 @@ theorem step_loc (cfg : Cfg) (g : G) (t : Tid) (op : LOp) :
        (lstep cfg t g.cache op (g.thr t)).2.2) := by
   simp only [step]
 
-/-- `spawn` changes at most the phase of its target, from `unborn` to `ready`, and only then reports `spawned` -/
+/-- `spawn` changes at most the phase of its target — from `unborn`, or from `done` (a joined Thread object called
+    again), to `ready` — and only then reports `spawned` -/
 theorem step_spawn (cfg : Cfg) (g : G) (t v : Tid) :
-    ((step cfg g (.spawn t v)).2 = .spawned ∧ (g.thr v).phase = .unborn ∧
-       (step cfg g (.spawn t v)).1 = { g with thr := upd g.thr v { g.thr v with phase := .ready } }) ∨
+    ((step cfg g (.spawn t v)).2 = .spawned ∧ ((g.thr v).phase = .unborn ∨ (g.thr v).phase = .done) ∧
+       (step cfg g (.spawn t v)).1.thr = upd g.thr v { g.thr v with phase := .ready }) ∨
     ((step cfg g (.spawn t v)).2 ≠ .spawned ∧ (step cfg g (.spawn t v)).1 = g) := by
   simp only [step]
   split
   · right; exact ⟨by simp, rfl⟩
   · split
-    · left; rename_i h; exact ⟨rfl, h, rfl⟩
-    · right; exact ⟨by simp, rfl⟩
+    · left; rename_i h; exact ⟨rfl, Or.inl h, rfl⟩
+    · split
+      · left; rename_i h; exact ⟨rfl, Or.inr h.1, rfl⟩
+      · right; exact ⟨by simp, rfl⟩
 
+/-- … and nothing but thread components and the joined flags -/
+theorem step_spawn_rest (cfg : Cfg) (g : G) (t v : Tid) :
+    (step cfg g (.spawn t v)).1.cache = g.cache ∧ (step cfg g (.spawn t v)).1.holder = g.holder ∧
+    (step cfg g (.spawn t v)).1.counter = g.counter ∧ (step cfg g (.spawn t v)).1.reg = g.reg := by
+  simp only [step]
+  split
+  · exact ⟨rfl, rfl, rfl, rfl⟩
+  · split
+    · exact ⟨rfl, rfl, rfl, rfl⟩
+    · split <;> exact ⟨rfl, rfl, rfl, rfl⟩
 
 /-! ### the projection lemma -/
 
@@ -210,20 +223,22 @@ theorem run_proj (cfg : Cfg) (u : Tid) (s : List Ev) : ∀ g : G, CacheOK cfg g.
         simp only [proj, localOuts, htu, if_false]
         exact ih'
     | spawn t v =>
-      rcases step_spawn cfg g t v with ⟨ho, hph, hg⟩ | ⟨ho, hg⟩
-      · rw [hg, ho]
-        have ih' := ih { g with thr := upd g.thr v { g.thr v with phase := .ready } } hc
+      have hrest := step_spawn_rest cfg g t v
+      have ih' := ih (step cfg g (.spawn t v)).1 (by rw [hrest.1]; exact hc)
+      rcases step_spawn cfg g t v with ⟨ho, hph, hthr⟩ | ⟨ho, hg⟩
+      · rw [hthr] at ih'
+        rw [ho]
         by_cases hvu : v = u
         · subst hvu
           simp only [upd_same] at ih'
-          simp only [proj, localOuts, if_true, soloSpec, hph]
+          simp only [proj, localOuts, if_true, soloSpec]
+          rw [if_pos hph]
           exact ih'
         · have huv : u ≠ v := fun h => hvu h.symm
           simp only [upd_other _ _ _ _ huv] at ih'
           simp only [proj, localOuts, hvu, if_false]
           exact ih'
-      · rw [hg]
-        have ih' := ih g hc
+      · rw [hg] at ih' ⊢
         have hp : proj u ((Ev.spawn t v, (step cfg g (.spawn t v)).2) :: (run cfg s g).2) = proj u (run cfg s g).2 := by
           generalize (step cfg g (.spawn t v)).2 = o at ho
           cases o <;> first | rfl | exact absurd rfl ho
@@ -297,7 +312,9 @@ theorem step_inside (cfg : Cfg) (g : G) (e : Ev) (t : Tid) (m : Nat) :
     simp only [step]
     split
     · simp [inside]
-    · split <;> simp [inside]
+    · split
+      · simp [inside]
+      · split <;> simp [inside]
   | join t' u =>
     simp only [step]
     split
@@ -376,7 +393,8 @@ theorem lstep_not_running (cfg : Cfg) (t : Tid) (c : Cache) (op : LOp) (ts : TS)
     (h2 : ts.phase ≠ .ready) : lstep cfg t c op ts = (ts, c, .dead) := by
   cases op <;> simp [lstep, h1, h2]
 
-theorem step_done (cfg : Cfg) (g : G) (e : Ev) (u : Tid) (hd : (g.thr u).phase = .done) :
+theorem step_done (cfg : Cfg) (g : G) (e : Ev) (u : Tid) (hd : (g.thr u).phase = .done)
+    (hns : ∀ t', e ≠ .spawn t' u) :
     (step cfg g e).1.thr u = g.thr u ∧ (e.tid = u → (step cfg g e).2 = .dead) := by
   have hnr : running g u = false := by simp [running, hd]
   cases e with
@@ -389,12 +407,11 @@ theorem step_done (cfg : Cfg) (g : G) (e : Ev) (u : Tid) (hd : (g.thr u).phase =
     · have : u ≠ t := fun h => htu h.symm
       simp [upd_other _ _ _ _ this, Ev.tid, htu]
   | spawn t v =>
-    rcases step_spawn cfg g t v with ⟨_, hph, hg⟩ | ⟨_, hg⟩
-    · by_cases hvu : v = u
-      · subst hvu; rw [hd] at hph; cases hph
-      · have huv : u ≠ v := fun h => hvu h.symm
-        refine ⟨(by rw [hg]; simp [upd_other _ _ _ _ huv]), ?_⟩
-        intro ht; simp only [Ev.tid] at ht; subst ht; simp [step, hnr]
+    have hvu : v ≠ u := fun h => hns t (by rw [h])
+    rcases step_spawn cfg g t v with ⟨_, _, hthr⟩ | ⟨_, hg⟩
+    · have huv : u ≠ v := fun h => hvu h.symm
+      refine ⟨(by rw [hthr]; simp [upd_other _ _ _ _ huv]), ?_⟩
+      intro ht; simp only [Ev.tid] at ht; subst ht; simp [step, hnr]
     · refine ⟨(by rw [hg]), ?_⟩
       intro ht; simp only [Ev.tid] at ht; subst ht; simp [step, hnr]
   | join t w =>
@@ -422,14 +439,15 @@ theorem step_done (cfg : Cfg) (g : G) (e : Ev) (u : Tid) (hd : (g.thr u).phase =
     refine ⟨by rw [(step_sync_frame cfg g (.rd t w) (by intros; simp) (by intros; simp)).1], ?_⟩
     intro ht; simp only [Ev.tid] at ht; subst ht; simp [step, hnr]
 
-theorem run_done (cfg : Cfg) (u : Tid) (s : List Ev) : ∀ g : G, (g.thr u).phase = .done →
+theorem run_done (cfg : Cfg) (u : Tid) (s : List Ev) (hns : ∀ e ∈ s, ∀ t', e ≠ .spawn t' u) : ∀ g : G,
+    (g.thr u).phase = .done →
     (run cfg s g).1.thr u = g.thr u ∧ ∀ eo ∈ (run cfg s g).2, eo.1.tid = u → eo.2 = .dead := by
   induction s with
   | nil => intro g _; exact ⟨rfl, (by intro eo h; cases h)⟩
   | cons e s ih =>
     intro g hd
-    have hs := step_done cfg g e u hd
-    have ih' := ih (step cfg g e).1 (by rw [hs.1]; exact hd)
+    have hs := step_done cfg g e u hd (hns e (by simp))
+    have ih' := ih (fun e' he' => hns e' (by simp [he'])) (step cfg g e).1 (by rw [hs.1]; exact hd)
     rw [run_cons]
     refine ⟨by rw [ih'.1, hs.1], ?_⟩
     intro eo hmem
@@ -617,8 +635,8 @@ theorem step_own (cfg : Cfg) (g : G) (e : Ev) (h : ∀ t, Own t (g.thr t)) : ∀
     · subst hut; simp only [upd_same]; exact lstep_own cfg u g.cache op (g.thr u) (h u)
     · simp only [upd_other _ _ _ _ hut]; exact h u
   | spawn t v =>
-    rcases step_spawn cfg g t v with ⟨_, _, hg⟩ | ⟨_, hg⟩
-    · rw [hg]
+    rcases step_spawn cfg g t v with ⟨_, _, hthr⟩ | ⟨_, hg⟩
+    · rw [hthr]
       by_cases huv : u = v
       · subst huv; simp only [upd_same]; exact h u
       · simp only [upd_other _ _ _ _ huv]; exact h u
@@ -646,13 +664,14 @@ theorem own_init : ∀ t, Own t (G.init.thr t) := by
 
 
 /-- once thread `u` has finished, whoever reads its published cell reads the same (final) value -/
-theorem run_rd_frozen (cfg : Cfg) (u : Tid) (s : List Ev) : ∀ g : G, (g.thr u).phase = .done →
+theorem run_rd_frozen (cfg : Cfg) (u : Tid) (s : List Ev) (hns : ∀ e ∈ s, ∀ t', e ≠ .spawn t' u) : ∀ g : G,
+    (g.thr u).phase = .done →
     ∀ eo ∈ (run cfg s g).2, ∀ r, eo.1 = .rd r u → eo.2 = .num (g.thr u).pub ∨ eo.2 = .dead := by
   induction s with
   | nil => intro g _ eo h; cases h
   | cons e s ih =>
     intro g hd eo hmem r he
-    have hs := step_done cfg g e u hd
+    have hs := step_done cfg g e u hd (hns e (by simp))
     rw [run_cons] at hmem
     rcases List.mem_cons.mp hmem with rfl | hmem
     · simp only at he
@@ -661,7 +680,7 @@ theorem run_rd_frozen (cfg : Cfg) (u : Tid) (s : List Ev) : ∀ g : G, (g.thr u)
       split
       · exact Or.inr rfl
       · exact Or.inl rfl
-    · have := ih (step cfg g e).1 (by rw [hs.1]; exact hd) eo hmem r he
+    · have := ih (fun e' he' => hns e' (by simp [he'])) (step cfg g e).1 (by rw [hs.1]; exact hd) eo hmem r he
       rw [hs.1] at this
       exact this
 
@@ -778,8 +797,8 @@ theorem step_live_nocrash (cfg : Cfg) (hgf : cfg.gcFirst = true) (g : G) (e : Ev
     · subst hut; simp only [upd_same]; exact hl.1
     · simp only [upd_other _ _ _ _ hut]; exact h u
   | spawn t v =>
-    rcases step_spawn cfg g t v with ⟨ho, _, hg⟩ | ⟨_, hg⟩
-    · rw [hg, ho]
+    rcases step_spawn cfg g t v with ⟨ho, _, hthr⟩ | ⟨_, hg⟩
+    · rw [hthr, ho]
       refine ⟨?_, by simp⟩
       intro u
       by_cases huv : u = v
@@ -790,7 +809,9 @@ theorem step_live_nocrash (cfg : Cfg) (hgf : cfg.gcFirst = true) (g : G) (e : Ev
       simp only [step]
       split
       · simp
-      · split <;> simp
+      · split
+        · simp
+        · split <;> simp
   | join t w =>
     rw [(step_sync_frame cfg g (.join t w) (by intros; simp) (by intros; simp)).1]
     refine ⟨h, ?_⟩
